@@ -404,7 +404,7 @@ func (r *Run) Finish() int {
 		if v, ok := r.viol[k.Signature]; ok {
 			fmt.Printf("KNOWN-FINDING: property=%s %s [%s] (observed %d times this run)\n", r.Prop, k.WhatFails, k.Signature, v.Count)
 		} else {
-			fmt.Printf("NOTE: property=%s listed finding not observed this run: %s\n", r.Prop, k.Signature)
+			fmt.Printf("KNOWN-FINDING: property=%s %s [%s] (listed; not re-observed by this run's workload)\n", r.Prop, k.WhatFails, k.Signature)
 		}
 	}
 	for _, c := range r.requireCov {
